@@ -862,6 +862,10 @@ type cliCase struct {
 	// (existing, longer file) or "stdout" (at most one stream); what is read back must be what
 	// the first execution (every output in its own new file) gave
 	Dest dests `json:"dest"`
+	// Aligned: the input of phase / phasent is given as an alignment file (the same sequences
+	// with gaps inserted and padded to one length, read without --unaligned: "alignment is first
+	// unaligned"); the results must be those of the ungapped sequences
+	Aligned []gen.Row `json:"aligned,omitempty"`
 }
 
 type dests struct {
@@ -1016,6 +1020,25 @@ func TestCLI(t *testing.T) {
 			at := rapid.IntRange(0, len(c.Phase.Seqs)-1).Draw(t, "errat")
 			c.Phase.Seqs[at].Seq = gen.SeqN(t, "ACGT", rapid.IntRange(1, 4).Draw(t, "shortlen"))
 		}
+		if rapid.IntRange(0, 2).Draw(t, "alignedinput") == 0 {
+			maxl := 0
+			rows := make([]gen.Row, len(c.Phase.Seqs))
+			for i, r := range c.Phase.Seqs {
+				b := r.Seq
+				for k := rapid.IntRange(0, 3).Draw(t, "ngaps"); k > 0; k-- {
+					at := rapid.IntRange(0, len(b)).Draw(t, "gapat")
+					b = b[:at] + strings.Repeat("-", rapid.IntRange(1, 4).Draw(t, "gaplen")) + b[at:]
+				}
+				rows[i] = gen.Row{Name: r.Name, Seq: b}
+				if len(b) > maxl {
+					maxl = len(b)
+				}
+			}
+			for i := range rows {
+				rows[i].Seq += strings.Repeat("-", maxl-len(rows[i].Seq))
+			}
+			c.Aligned = rows
+		}
 		return c
 	}, func(c cliCase) (o pbt.Outcome, err error) {
 		o.Class("cmd=%s", c.Cmd)
@@ -1058,11 +1081,25 @@ func TestCLI(t *testing.T) {
 		}
 		pc := c.Phase
 		in := cli.TempFile(dir, ".fa", cli.FastaLayout(pc.Seqs, c.Layout))
+		inputMode := []string{"--unaligned"}
+		if len(c.Aligned) > 0 {
+			for i, r := range c.Aligned {
+				if i >= len(pc.Seqs) || strings.ReplaceAll(r.Seq, "-", "") != pc.Seqs[i].Seq || len(r.Seq) != len(c.Aligned[0].Seq) {
+					return o, fmt.Errorf("harness: aligned rows do not hold the sequences")
+				}
+			}
+			in = cli.TempFile(dir, ".ali.fa", cli.FastaLayout(c.Aligned, c.Layout))
+			inputMode = nil
+			o.Class("input=alignment file")
+		} else {
+			o.Class("input=--unaligned")
+		}
 		logf := cli.TempFile(dir, ".log", "")
 		aaf := cli.TempFile(dir, ".aa.fa", "")
 		codf := cli.TempFile(dir, ".codon.fa", "")
 		w := pc.Workers[len(pc.Workers)-1]
-		base := []string{c.Cmd, "-i", in, "--unaligned", "--match-cutoff", "-1", "--genetic-code", pc.Code, "-t", fmt.Sprint(w)}
+		base := append([]string{c.Cmd, "-i", in}, inputMode...)
+		base = append(base, "--match-cutoff", "-1", "--genetic-code", pc.Code, "-t", fmt.Sprint(w))
 		if len(pc.Orfs) > 0 {
 			base = append(base, "--ref-orf", cli.TempFile(dir, ".ref.fa", cli.FastaLayout(pc.Orfs, c.Layout)))
 		}
